@@ -254,3 +254,86 @@ Section Poly.
       + intros [|i]; [reflexivity|]. cbn [nth]. apply IHn.
   Qed.
 End Poly.
+
+(* ---------- sparse polynomials ---------- *)
+Section Sparse.
+  Context {T : Type} (z : T) (eqb : T -> T -> bool).
+  Hypothesis eqb_spec : forall x y, eqb x y = true <-> x = y.
+
+  Theorem sparse_eqb_spec : forall p q, sparse_eqb eqb p q = true <-> p = q.
+  Proof.
+    apply list_eqb_spec. intros [i x] [j y]. cbn [fst snd].
+    rewrite andb_true_iff, Z.eqb_eq, eqb_spec. split; [intros [-> ->]; reflexivity | intro E; injection E; auto].
+  Qed.
+
+  (* the coefficient of x^i *)
+  Fixpoint scoeff (p : list (Z * T)) (i : Z) : T :=
+    match p with
+    | [] => z
+    | (j, c) :: r => if i =? j then c else scoeff r i
+    end.
+  (* canonical: exponents strictly increasing (all >= lo), coefficients non-zero *)
+  Fixpoint sparse_canonical (lo : Z) (p : list (Z * T)) : Prop :=
+    match p with
+    | [] => True
+    | (j, c) :: r => lo <= j /\ c <> z /\ sparse_canonical (j + 1) r
+    end.
+
+  Lemma scoeff_below : forall p lo i, sparse_canonical lo p -> i < lo -> scoeff p i = z.
+  Proof.
+    induction p as [|[j c] r IH]; intros lo i Hc Hi; [reflexivity|].
+    destruct Hc as (Hj & _ & Hr). cbn [scoeff].
+    destruct (Z.eqb_spec i j); [lia|]. apply (IH (j + 1)); auto. lia.
+  Qed.
+
+  Theorem sparse_eq_iff_same_poly : forall p q lo, sparse_canonical lo p -> sparse_canonical lo q ->
+    (sparse_eqb eqb p q = true <-> forall i, scoeff p i = scoeff q i).
+  Proof.
+    intros p q lo Hp Hq. rewrite sparse_eqb_spec. split; [intros ->; reflexivity|].
+    revert q lo Hp Hq. induction p as [|[j c] r IH]; intros [|[j' c'] r'] lo Hp Hq Hc.
+    - reflexivity.
+    - exfalso. destruct Hq as (_ & Hnz & _). specialize (Hc j'). cbn [scoeff] in Hc.
+      rewrite Z.eqb_refl in Hc. congruence.
+    - exfalso. destruct Hp as (_ & Hnz & _). specialize (Hc j). cbn [scoeff] in Hc.
+      rewrite Z.eqb_refl in Hc. congruence.
+    - destruct Hp as (Hj & Hnz & Hr). destruct Hq as (Hj' & Hnz' & Hr').
+      assert (Ejj : j = j').
+      { destruct (Z.lt_trichotomy j j') as [L|[E|L]]; [|exact E|]; exfalso.
+        - specialize (Hc j). cbn [scoeff] in Hc. rewrite Z.eqb_refl in Hc.
+          destruct (Z.eqb_spec j j'); [lia|]. rewrite (scoeff_below r' (j' + 1) j Hr') in Hc by lia. congruence.
+        - specialize (Hc j'). cbn [scoeff] in Hc. rewrite Z.eqb_refl in Hc.
+          destruct (Z.eqb_spec j' j); [lia|]. rewrite (scoeff_below r (j + 1) j' Hr) in Hc by lia. congruence. }
+      subst j'. pose proof (Hc j) as Hcj. cbn [scoeff] in Hcj. rewrite Z.eqb_refl in Hcj. subst c'.
+      f_equal. apply (IH r' (j + 1)); auto.
+      intros i. destruct (Z.eqb_spec i j) as [->|Hne].
+      + rewrite (scoeff_below r (j + 1) j Hr), (scoeff_below r' (j + 1) j Hr') by lia. reflexivity.
+      + specialize (Hc i). cbn [scoeff] in Hc. destruct (Z.eqb_spec i j); [contradiction|]. exact Hc.
+  Qed.
+
+  (* From<DensePolynomial> for SparsePolynomial yields a canonical sparse polynomial with the same coefficients *)
+  Variable is0 : T -> bool.
+  Hypothesis is0_spec : forall x, is0 x = true <-> x = z.
+  Theorem sparse_of_dense_spec : forall p k, 0 <= k ->
+    sparse_canonical k (sparse_of_dense is0 k p) /\
+    forall i, scoeff (sparse_of_dense is0 k p) i = if i <? k then z else nth (Z.to_nat (i - k)) p z.
+  Proof.
+    induction p as [|x r IH]; intros k Hk.
+    - split; [exact I|]. intros i. cbn. destruct (i <? k); [reflexivity|]. destruct (Z.to_nat (i - k)); reflexivity.
+    - destruct (IH (k + 1) ltac:(lia)) as [IHc IHn]. cbn [sparse_of_dense].
+      assert (Hshift : forall i, k < i -> nth (Z.to_nat (i - k)) (x :: r) z = nth (Z.to_nat (i - (k + 1))) r z).
+      { intros i Hi. replace (Z.to_nat (i - k)) with (S (Z.to_nat (i - (k + 1)))) by lia. reflexivity. }
+      destruct (is0 x) eqn:Ex.
+      + apply is0_spec in Ex. subst x. split.
+        * clear IHn. revert IHc. generalize (sparse_of_dense is0 (k + 1) r). intros [|[j c] l]; cbn; [auto|].
+          intros (A & B & C). repeat split; auto. lia.
+        * intros i. rewrite IHn. destruct (Z.ltb_spec i (k + 1)), (Z.ltb_spec i k); try lia; try reflexivity.
+          -- assert (i = k) by lia. subst i. rewrite Z.sub_diag. reflexivity.
+          -- symmetry. apply Hshift. lia.
+      + split.
+        * cbn [sparse_canonical]. repeat split; [lia | | exact IHc]. intro E. apply is0_spec in E. congruence.
+        * intros i. cbn [scoeff]. destruct (Z.eqb_spec i k) as [->|Hne].
+          -- rewrite Z.ltb_irrefl, Z.sub_diag. reflexivity.
+          -- rewrite IHn. destruct (Z.ltb_spec i (k + 1)), (Z.ltb_spec i k); try lia; try reflexivity.
+             symmetry. apply Hshift. lia.
+  Qed.
+End Sparse.
